@@ -32,11 +32,17 @@ HUGE_PROFILE = {"huge": True, "first_ops": ["shift_common_v"], "ops": ["shift_co
 
 def shards(tier):
     if tier == "quick":
-        return [{"label": "hist%d" % i, "n": 1200} for i in range(12)] + [{"label": "huge", "n": 4, "huge": True, "mem_gib": 12}]
-    return [{"label": "hist%d" % i, "n": 60000} for i in range(15)] + [{"label": "huge", "n": 60, "huge": True, "mem_gib": 12}]
+        return [{"label": "hist%d" % i, "n": 1200} for i in range(12)] + [{"label": "huge", "n": 4, "huge": True, "mem_gib": 12},
+                                                                               {"label": "giant", "n": 60, "giant": True}]
+    return [{"label": "hist%d" % i, "n": 60000} for i in range(15)] + [{"label": "huge", "n": 60, "huge": True, "mem_gib": 12},
+                                                                                 {"label": "giant", "n": 1500, "giant": True}]
 
 
 def run_shard(ctx):
+    if ctx.shard.get("giant"):
+        for case in histories.giant_append_cases(ctx.rng, ctx.shard["n"]):
+            histories.giant_append(ctx, ASPECT, case)
+        return
     if ctx.shard.get("huge"):
         histories.run_histories(ctx, ASPECT, ctx.shard["n"], min_steps=2, max_steps=5, profile=HUGE_PROFILE)
         ctx.count("class:index_with_more_than_2^22_cells", ctx.shard["n"])
@@ -45,4 +51,7 @@ def run_shard(ctx):
 
 
 def replay(ctx, case):
+    if case.get("kind") == "giant_append":
+        histories.giant_append(ctx, ASPECT, case)
+        return
     histories.replay(ctx, ASPECT, case)
